@@ -124,10 +124,11 @@ func runC02(cx *Ctx, r *Report) {
 	byFrame := map[*Frame][]bev{}
 	var frames []*Frame
 	for _, x := range per["SwapCoin"] {
-		if _, ok := byFrame[x.ev.Fr]; !ok {
-			frames = append(frames, x.ev.Fr)
+		hf := hostFrame(x.ev.Fr)
+		if _, ok := byFrame[hf]; !ok {
+			frames = append(frames, hf)
 		}
-		byFrame[x.ev.Fr] = append(byFrame[x.ev.Fr], x)
+		byFrame[hf] = append(byFrame[hf], x)
 	}
 	trades := map[*Frame][]*swapLeg{}
 	var tradeOrder []*Frame
@@ -225,7 +226,7 @@ func (cx *Ctx) c02Liquidity(r *Report, per map[string][]bev) {
 	group := func(name string) map[*Frame][]bev {
 		m := map[*Frame][]bev{}
 		for _, x := range per[name] {
-			m[x.ev.Fr] = append(m[x.ev.Fr], x)
+			m[hostFrame(x.ev.Fr)] = append(m[hostFrame(x.ev.Fr)], x)
 		}
 		return m
 	}
